@@ -21,6 +21,16 @@ CLAIMED = {
             "Generated-input search over frame sequences; every rendered keyframe, in any request order, must equal the canvas computed by the reference compositor from the decoded-by-construction frame contents (tolerance 2e-6 relative to max(1,|v|), f32 model using the definition's formulas).",
             "Trusted: jxlref::models::compositor (my reading of the blending and patch rules); regions where I could not pin the definition down are excluded by construction and listed in the evidence assumptions; one genuine patch-blending defect is a known finding.",
             "DESIGN.md §4 C05"),
+    "C06": ("exploration",
+            "metamorphic PBT: generated images x generated sequences of region requests; every region render vs the same rectangle of the first full render (1e-6), final full render bit-identical",
+            "Generated-input search over images (lossless Modular incl. squeeze/palette/multi-group/orientation, multi-frame blending with crops and patches; VarDCT shapes with filters/upsampling through the VarDCT reference writer) and over request sequences; the project's own crop-test statement is the oracle.",
+            "Trusted: the first full render is the reference (self-consistency relation, not absolute correctness; C03/C05 pin absolute values for Modular).",
+            "DESIGN.md §4 C06"),
+    "C07": ("exploration",
+            "metamorphic PBT: same stream rendered with pool none / rayon 1,2,3,8,16, repeatedly, and from 1..4 concurrent caller threads; bit-identical samples and identical Ok/Err outcome (also with one corrupted section)",
+            "Generated-input search over images with parallel work and over pool sizes / repetition / caller concurrency; real rayon interleavings are sampled, not enumerated (stated).",
+            "Trusted: std threads and rayon provide the interleavings; a race is only caught when it changes samples or outcomes in some run.",
+            "DESIGN.md §4 C07"),
     "C09": ("exploration",
             "metamorphic PBT: generated valid files x generated chunkings (structure-boundary biased) fed through the incremental API vs whole-buffer read; field-wise and sample-wise equality",
             "Generated-input search over valid files (bare/container, split jxlp, aux boxes, multi-section frames, permuted TOCs) and over chunkings biased to structure boundaries; the incremental decoder must report exactly what the one-shot decoder reports, including bit-identical samples.",
@@ -41,6 +51,11 @@ CLAIMED = {
             "Generated-input search over Modular streams whose every stored and intermediate value fits 16 bits by construction; narrow-buffer decode (AVX2 kernels on this host) must equal forced-wide decode sample for sample, and both must equal the original image.",
             "Trusted: the encoder's range simulation defines 'truthful'; inverse-transform intermediates (squeeze tendency terms, RCT sums) are included after a counter-example showed the decoder evaluates them in 16-bit lanes (see DESIGN §7).",
             "DESIGN.md §4 C12"),
+    "C13": ("fault_enumeration",
+            "PBT with fault thresholds: generated (valid or mutated) streams x generated allocation limits around the clean run's measured usage x call sequences; accounting invariants observed through a cfg(jxl_oxide_verif) accessor; checked build, worker-process isolation",
+            "Generated-input search over streams, limits (0, 1, thresholds derived from a clean run, ample) and call sequences; after everything is dropped the tracker must hold exactly its initial budget, the available bytes never exceed the initial limit, and no configuration may panic, abort or hang (overflow checks and debug assertions enabled).",
+            "Trusted: the hook only reads counters. Tracked totals are observed between API calls. Whether a too-small limit must produce an error is not asserted (the library may skip optional scratch buffers).",
+            "DESIGN.md §4 C13"),
     "C14": ("exploration",
             "round-trip PBT: independent header writer with generated field values and generated (non-canonical) encodings -> Bundle::parse, field-wise equality + exact bit position",
             "Generated-input search over the conditional layout of ImageHeader / FrameHeader / TOC: every field combination the generator can express is written by an independent writer (any legal U32 selector, any U64 form incl. 64-bit tail, arbitrary finite F16 patterns, all_default/div8/ratio shortcuts chosen at random) and the decoder must report exactly the written values and stop at exactly the written bit.",
